@@ -17,6 +17,7 @@ const (
 	kDir entKind = iota
 	kFile
 	kLink
+	kFifo // a named pipe (read-observation part): a non-directory whose being opened is observable without reading it
 )
 
 // layoutEnt is one row of the layout table.  Path is relative to the scratch
@@ -175,7 +176,7 @@ func newModel(B string, ents []layoutEnt, noLinks bool) *model {
 		switch e.Kind {
 		case kDir:
 			n.children = map[string]*node{}
-		case kFile:
+		case kFile, kFifo:
 			n.id = fileID(e)
 		case kLink:
 			n.target = strings.ReplaceAll(e.Data, "$B", B)
